@@ -66,6 +66,10 @@ def classify(f, e):
 def closure_effects(repo, cls, extra_entries=(), fresh_returning=()):
     """All local effects of every function in the call-graph closure of class `cls`
     (its own and inherited methods), analysed with `self` = cls."""
+    memo = repo.__dict__.setdefault("_closure_effects_memo", {})
+    mkey = (cls.qualname, tuple(sorted(e.qualname for e in extra_entries)), tuple(sorted(fresh_returning)))
+    if mkey in memo:
+        return memo[mkey]
     E = Effects(repo, fresh_returning=fresh_returning)
     E.self_class = cls
     entries = []
@@ -81,4 +85,5 @@ def closure_effects(repo, cls, extra_entries=(), fresh_returning=()):
     for f in fns:
         for e in E.local(f):
             out.append((f, e, classify(f, e)))
+    memo[mkey] = (E, fns, out)
     return E, fns, out
